@@ -58,6 +58,9 @@ func goSpec(t Transform, prim, sec map[string]Obj) map[string]Out {
 			return l
 		})
 		for _, o := range outs {
+			if t.chainSuffix {
+				o.Val += "|c"
+			}
 			res[o.Key] = o
 		}
 	}
@@ -169,6 +172,8 @@ func oracleCase(t *testing.T, lines [][]string) string {
 			return
 		}
 		c = newCaseRun(tr, contains(head[4:], "f6"))
+		c.chain = contains(head[4:], "chain")
+		tr.chainSuffix = c.chain
 		sec := map[string]Obj{}
 		base := map[string]map[string]string{}
 		for n, l := range lines[1:] {
@@ -208,7 +213,7 @@ func oracleCase(t *testing.T, lines [][]string) string {
 			switch l[0] {
 			case "list", "ulist":
 				real := map[string]string{}
-				for _, o := range c.der.List() {
+				for _, o := range c.top.List() {
 					real[o.Key] = o.Val
 				}
 				if d := diffMaps(real, valsOf(spec), notU); d != "" {
@@ -219,7 +224,7 @@ func oracleCase(t *testing.T, lines [][]string) string {
 				}
 			case "get":
 				if len(l) == 2 {
-					o := c.der.GetKey(l[1])
+					o := c.top.GetKey(l[1])
 					s, has := spec[l[1]]
 					if (o == nil) != !has || (o != nil && (o.Val != s.Val || o.Key != l[1])) {
 						if c.d.inU(l[1]) {
